@@ -34,7 +34,7 @@ RULE = (
 )
 ASSUMPTIONS = [
     "outline entries for entities nested deeper than one level inside a unit are not required (fortls lists only direct members)",
-    "layouts without statement splitting/joining and with indent <= 4 (C13/C14 cover those)",
+    "layouts without statement splitting/joining (C13/C14 cover those)",
 ]
 
 KIND = {"module": 2, "program": 2, "subroutine": 12, "function": 12, "type": 5, "interface": 11}
@@ -225,7 +225,7 @@ def check_bundle(srv, root, fname, bundle, discs):
 
 
 def check_program(ctx, prog, layout, queries, scratch, bundle=None):
-    layout = dataclasses.replace(layout, split_every=0, join_every=0, indent=min(layout.indent, 4))
+    layout = dataclasses.replace(layout, split_every=0, join_every=0)
     r = fmodel.render(prog, layout)
     fws.gfortran_sample(ctx, r)
     bname = add_bundle(r, layout, bundle) if bundle else None
@@ -374,7 +374,7 @@ def run(ctx):
 
     def case_of(v):
         prog, layout, qs, bundle = v
-        layout = dataclasses.replace(layout, split_every=0, join_every=0, indent=min(layout.indent, 4))
+        layout = dataclasses.replace(layout, split_every=0, join_every=0)
         r = fmodel.render(prog, layout)
         case = {"files": r.files, "queries": qs}
         if bundle:
